@@ -16,7 +16,7 @@ TInit == tid \in 1..Len(Traces) /\ TLCSet(tid, 0) /\ l = 1 /\ Init
 
 MatchObs(o, c) ==
   /\ o.kind = c.kind
-  /\ o.kind = "error" => o.err = c.err
+  /\ o.kind = "error" => (o.err = c.err /\ o.apart = c.apart)
   /\ o.kind = "done" => /\ (c.con = "any" \/ o.con = c.con)
                         /\ o.wcon = c.wcon /\ o.wcns = c.wcns /\ o.efc = c.efc /\ o.incl = c.incl
                         /\ (c.isl = "any" \/ o.isl = c.isl) /\ o.bal = c.bal /\ o.apart = c.apart
